@@ -127,7 +127,8 @@ def build_event(rng):
     else:
         ev = {"date": iso(s), "ticker": tk, "kind": kind, "amount": evq, "total": [dstr(amt), "GBP"],
               "tax": [dstr(extra), "GBP"], "_ev": True}
-    return sorted(base + [ev], key=lambda t: t["date"])
+    copies = rng.choice([1, 1, 1, 1, 1, 2, 3])       # identical lines are separate events (two accounts, one fund)
+    return sorted(base + [dict(ev) for _ in range(copies)], key=lambda t: t["date"])
 
 
 def build_event_split_day(rng):
@@ -178,10 +179,14 @@ def judge_event(var, oa, ob, cnt):
     viols = []
     base = unmarked(var)
     evs = marked_events(var)
-    if len(evs) != 1 or "ok" not in oa:
+    if not evs or any(e != evs[0] for e in evs) or "ok" not in oa:
         return viols
     ev = evs[0]
-    tk, s, kind, net = ev["ticker"], pdate(ev["date"]), ev["kind"], event_net(ev)
+    # the same event line may appear two or three times (one line per account holding units of the same fund):
+    # each line is an event of its own, so the cost must move by the sum
+    tk, s, kind, net = ev["ticker"], pdate(ev["date"]), ev["kind"], event_net(ev) * len(evs)
+    if len(evs) > 1:
+        cnt["events_listed_more_than_once(identical lines)"] += 1
     if any(t["ticker"] == tk and t["date"] == ev["date"] for t in base):
         return viols  # (minimiser) keep the event on an idle date
     own = own_positions(oa.get("snapshots"), tk)
